@@ -1265,10 +1265,17 @@ impl Engine {
         trace(&[tag::STEP, a as u32]);
         match a {
             0 => {
+                // Mostly the strict executor (poll only what was woken), but
+                // an executor may also poll spuriously (join/select style
+                // combinators do), with the same or a fresh waker.
+                let spurious = tape::chance(site::STEP, 1, 6);
                 let live: Vec<usize> = self
                     .live_tasks()
                     .into_iter()
-                    .filter(|i| self.runnable(*i))
+                    .filter(|i| {
+                        self.runnable(*i)
+                            || (spurious && !self.tasks[*i].finished && self.tasks[*i].name != "Close")
+                    })
                     .collect();
                 if live.is_empty() {
                     self.create();
